@@ -2,14 +2,15 @@
 # re-runs the quick check of the property each seeded change was written for, with the change applied (after generators changed)
 cd "$(dirname "$0")/.."
 mkdir -p work
-: > work/recheck_all.out
+out=work/recheck_all.${VERIF_SEED:-default}.out
+: > $out
 for d in seeded/*/; do
   n=$(basename $d)
   p=$(python3 -c "import json;print(json.load(open('$d/meta.json'))['breaks'][0])")
   bin/seedrecheck $n $p > work/rc_$n.log 2>&1
   v=$(grep -c "VIOLATION" work/rc_$n.log)
   nf=$(grep "VIOLATION" work/rc_$n.log | grep -vc "no-failing-input-found")
-  echo "$n $p violations=$v with-input=$nf" >> work/recheck_all.out
+  echo "$n $p violations=$v with-input=$nf" >> $out
   rm -f work/rc_$n.log
 done
-echo RCDONE >> work/recheck_all.out
+echo RCDONE >> $out
